@@ -20,6 +20,12 @@ def pool(chk, mdl):
     texts = uris.small_texts(2 if q else 3, alphabet=uris.SEG_FULL, auths=(None, "//h", "//H%41%2f%7E"), schemes=(None, "S"), queries=(None,))
     texts += uris.small_texts(1, alphabet=["a", "..", "%2E"], auths=("//u%41%3a@[::A]:8", "//[vA.B]", "//1.2.3.4", "//%41:80"), schemes=(None, "hTTp"), queries=(None, "%7e%2f%6A"), frags=(None, "%5A%3f"))
     texts += uris.small_texts(3 if q else 4, alphabet=uris.SEG_SMALL, auths=(None,), schemes=(None,))
+    # adjacent percent groups inside one component: an already-normal group directly followed by one that needs work (and the
+    # reverse, and three in a row): aimed at the scan of the mask query and at the engine's "i += 2" / last-two-characters boundary
+    norm = ["%2F", "%20", "%25", "%3A"]; work = ["%7e", "%41", "%2e", "%5d", "%2f"]
+    pairs = [a + b for a in norm for b in work] + [b + a for a in norm[:2] for b in work[:3]] + [a + a2 + b for a in norm[:2] for a2 in norm[1:3] for b in work[:2]] + ["x" + norm[0] + work[0], norm[0] + work[0] + "x", norm[0] + "x" + work[0]]
+    for g in pairs:
+        texts += ["//h/" + g, "/" + g + "/b", g, "?" + g, "#" + g, "//" + g + "@h", "//a" + g + ".b/", "s://h/a?k=" + g + "#" + g]
     # relative references that start with an essential dot: "./b:c/../x", "./b:c/../../x", ...
     texts += ["./b:c/" + "/".join(t) for n in range(1, 4 if q else 5) for t in __import__("itertools").product(["..", ".", "x", ""], repeat=n)]
     for f in sorted(glob.glob(os.path.join(lib.VERIF, "corpus", PID, "*.json"))):
